@@ -184,7 +184,11 @@ func vfhC10MapOrder() {
 // bit-identical.
 func vfhC10MapOrderShapes() {
 	var wa, wb string
-	switch vfInt("case", 0, 7) {
+	switch vfInt("case", 0, 9) {
+	case 8: // overlapping members, a covered hole and a far member in one operand
+		wa, wb = "GEOMETRYCOLLECTION(POLYGON((0 0,10 0,10 10,0 10,0 0)),POLYGON((2 2,8 2,8 8,2 8,2 2),(4 4,6 4,6 6,4 6,4 4)),POLYGON((20 20,22 20,22 22,20 22,20 20)))", "POINT(30 30)"
+	case 9: // three mutually overlapping members and a line through them
+		wa, wb = "GEOMETRYCOLLECTION(POLYGON((0 0,6 0,6 6,0 6,0 0)),POLYGON((2 2,8 2,8 8,2 8,2 2)),POLYGON((4 -2,10 -2,10 4,4 4,4 -2)))", "LINESTRING(-2 3,12 3)"
 	case 6: // two polygons whose rings start at the same (lowest) vertex
 		wa, wb = "POLYGON((0 0,2 1,1 2,0 0))", "POLYGON((0 0,1 -2,2 -1,0 0))"
 	case 7: // three lines and two holes meeting at shared vertices
